@@ -10,15 +10,22 @@ Local Open Scope Z_scope.
 (* After any history of API operations, close + re-summon shows every key exactly as before:
    existence, value type and value (zero-like values included), created/updated/expiry metadata. *)
 Theorem C05_reload_identity : forall gob, (forall c, gob c = gob_spec c) ->
-  forall h k, seen (reload gob true (run h)) k = seen (run h) k.
+  forall h k, seen (reload gob true (run gob true h)) k = seen (run gob true h) k.
 Proof. exact reload_identity. Qed.
 Print Assumptions C05_reload_identity.
 
 (* stronger: the stored state is identical, not only its projection to the wire *)
 Theorem C05_reload_state_identity : forall gob, (forall c, gob c = gob_spec c) ->
-  forall h, reload gob true (run h) = run h.
+  forall h, reload gob true (run gob true h) = run gob true h.
 Proof. exact reload_state_identity. Qed.
 Print Assumptions C05_reload_state_identity.
+
+(* Closes (idle eviction, shutdown) in the middle of a history, wherever they fall relative to
+   the operations and to the writer's ticks, leave the same state as the history without them. *)
+Theorem C05_mid_history_reloads_invisible : forall gob, (forall c, gob c = gob_spec c) ->
+  forall h, run gob true h = run gob true (filter (fun o => negb (is_reload o)) h).
+Proof. exact mid_history_reloads_invisible. Qed.
+Print Assumptions C05_mid_history_reloads_invisible.
 
 (* every value of every content type survives ConvertToByte -> gob -> LoadFromByte *)
 Theorem C05_value_roundtrip : forall gob, (forall c, gob c = gob_spec c) ->
@@ -28,7 +35,7 @@ Print Assumptions C05_value_roundtrip.
 
 (* The pinned commit: Set k (Uint8 0) reloads as a void record. *)
 Theorem C05_reload_identity_refuted_before_fix : forall gob, (forall c, gob c = gob_spec c) ->
-  exists h k, seen (reload gob false (run h)) k <> seen (run h) k.
+  exists h k, seen (reload gob false (run gob false h)) k <> seen (run gob false h) k.
 Proof. exact reload_identity_refuted_old. Qed.
 Print Assumptions C05_reload_identity_refuted_before_fix.
 
@@ -39,7 +46,7 @@ Proof. exact persist_value_old. Qed.
 Print Assumptions C05_value_loss_before_fix.
 
 Theorem C05_reload_identity_partial_before_fix : forall gob, (forall c, gob c = gob_spec c) ->
-  forall h, no_zero_values (run h) -> forall k, seen (reload gob false (run h)) k = seen (run h) k.
+  forall h, no_zero_values (run gob false h) -> forall k, seen (reload gob false (run gob false h)) k = seen (run gob false h) k.
 Proof. exact reload_identity_partial_old. Qed.
 Print Assumptions C05_reload_identity_partial_before_fix.
 
